@@ -4,6 +4,8 @@ import ChfVerif.Lemmas.BerStructRT
 import ChfVerif.Lemmas.BerSafe
 import ChfVerif.Lemmas.BerMarshalSafe
 import ChfVerif.Gen.Schema
+import ChfVerif.Gen.AsnGlobals
+import ChfVerif.Spec.C05Domain
 /-
   C05 — decode(encode(v)) = v.
 
@@ -280,5 +282,207 @@ example : Canon
     (.struct (.cons .nil (.cons (.bool true) (.cons (.choice 2 (.cons .nil (.cons (.int 7) .nil))) .nil)))) := by
   refine .struct (.absent rfl (.present (.ptr .bool) (.present ?_ .nil)))
   exact .choice (v := .int 7) (by decide) (.there (.here (.enum ⟨by decide, by decide⟩))) rfl rfl
+
+/-! ### the domain the check judges (`ber dom` of the driver) is one the law is proved for -/
+
+open Chf.Ber in
+theorem primParams_tag {p : Params} (h : primParams p = true) : ∀ n, p.tagNumber = some n → n < 9223372036854775808 := by
+  intro n hn
+  simpa [primParams, hn] using h
+
+open Chf.Ber in
+theorem trunc32_range (i : Int) (h : truncInt 32 i = i) : -(2 : Int) ^ (32 - 1) ≤ i ∧ i < (2 : Int) ^ (32 - 1) := by
+  have h1 : (2 : Int) ^ (32 - 1) = 2147483648 := by decide
+  have h2 : (2 : Int) ^ 32 = 4294967296 := by decide
+  unfold truncInt at h
+  simp only [show ¬ (32 ≥ 64) by decide, if_false, h1, h2] at h
+  rw [h1]
+  split at h <;> omega
+
+open Chf.Ber in
+theorem int_range (w : Nat) (hw : w = 32 ∨ w = 64) (i : Int) (h64 : int64 i) (ht : truncInt w i = i) :
+    -(2 : Int) ^ (w - 1) ≤ i ∧ i < (2 : Int) ^ (w - 1) := by
+  rcases hw with rfl | rfl
+  · exact trunc32_range i ht
+  · have h1 : (2 : Int) ^ (64 - 1) = 9223372036854775808 := by decide
+    rw [h1]; unfold int64 at h64; omega
+
+open Chf.Ber in
+/-- primitives under any tagging, behind pointers and (INTEGER, ENUMERATED, OCTET STRING, character strings) a Value wrapper -/
+theorem prim_domain_rt : ∀ (t : Ty) (p : Params) (v : Val), primDomain t p = true → Canon t v →
+    ∀ b, marshal t p v = .ok b → b.length < 4611686018427387904 → unmarshal t p b = .ok v
+  | .ptr t, p, v, hd, hv, b, hm, hl => by
+    cases hv with
+    | ptr hv' =>
+      have hne := canon_ne_nil hv'
+      have e1 : marshal (.ptr t) p v = marshal t p v := by simp [marshal, hne]
+      rw [e1] at hm
+      rw [unmarshal]
+      exact prim_domain_rt t p v (by simpa [primDomain] using hd) hv' b hm hl
+  | .bool, p, v, hd, hv, b, hm, _ => by
+    cases hv with
+    | bool => exact C05_boolean p _ (primParams_tag (by simpa [primDomain] using hd)) b hm
+  | .enum, p, v, hd, hv, b, hm, _ => by
+    cases hv with
+    | enum hi => exact C05_enumerated p _ hi (primParams_tag (by simpa [primDomain] using hd)) b hm
+  | .null, p, v, hd, hv, b, hm, _ => by
+    cases hv with
+    | null => exact C05_null p (primParams_tag (by simpa [primDomain] using hd)) b hm
+  | .int w, p, v, hd, hv, b, hm, _ => by
+    simp only [primDomain, Bool.and_eq_true, Bool.or_eq_true, beq_iff_eq] at hd
+    cases hv with
+    | int h64 ht => exact C05_integer w hd.1 p _ (int_range w hd.1 _ h64 ht) (primParams_tag hd.2) b hm
+  | .octets, p, v, hd, hv, b, hm, hl => by
+    cases hv with
+    | octets =>
+      rename_i bs
+      have hlen : bs.length + 44 < 9223372036854775808 := by
+        have hm' := hm
+        rw [marshal] at hm'
+        simp only [Res.ok.injEq] at hm'
+        have := finish_length_ge p false 4 bs
+        rw [hm'] at this
+        omega
+      exact C05_octet_string p bs (primParams_tag (by simpa [primDomain] using hd)) hlen b hm
+  | .str d, p, v, hd, hv, b, hm, hl => by
+    simp only [primDomain, Bool.and_eq_true, decide_eq_true_eq] at hd
+    cases hv with
+    | str =>
+      rename_i bs
+      have hlen : bs.length + 44 < 9223372036854775808 := by
+        have hm' := hm
+        rw [marshal] at hm'
+        simp only [Res.ok.injEq] at hm'
+        have := finish_length_ge p false (stringTagOf p d) bs
+        rw [hm'] at this
+        omega
+      exact C05_string d p bs (primParams_tag hd.1) hd.2 hlen b hm
+  | .bits, p, v, hd, hv, b, hm, hl => by
+    cases hv with
+    | bits h1 h2 =>
+      rename_i bs n
+      have hlen : bs.length + 45 < 9223372036854775808 := by
+        have hm' := hm
+        rw [marshal] at hm'
+        simp only [Res.ok.injEq] at hm'
+        have := finish_length_ge p false 3 (((8 - n % 8) % 8) :: bs)
+        rw [hm'] at this
+        simp only [List.length_cons] at this
+        omega
+      exact C05_bit_string p bs n (primParams_tag (by simpa [primDomain] using hd)) hlen h1 h2 b hm
+  | .wrap (.int w), p, v, hd, hv, b, hm, _ => by
+    simp only [primDomain, Bool.and_eq_true, Bool.or_eq_true, beq_iff_eq] at hd
+    cases hv with
+    | wrap hv' =>
+      cases hv' with
+      | int h64 ht => exact C05_wrapped_integer w hd.1 p _ (int_range w hd.1 _ h64 ht) (primParams_tag hd.2) b hm
+  | .wrap .enum, p, v, hd, hv, b, hm, _ => by
+    cases hv with
+    | wrap hv' =>
+      cases hv' with
+      | enum hi => exact C05_wrapped_enumerated p _ hi (primParams_tag (by simpa [primDomain] using hd)) b hm
+  | .wrap .octets, p, v, hd, hv, b, hm, hl => by
+    cases hv with
+    | wrap hv' =>
+      cases hv' with
+      | octets =>
+        rename_i bs
+        have hlen : bs.length + 44 < 9223372036854775808 := by
+          have hm' := hm
+          rw [marshal, marshal] at hm'
+          simp only [Res.ok.injEq] at hm'
+          have := finish_length_ge p false 4 bs
+          rw [hm'] at this
+          omega
+        exact C05_wrapped_octet_string p bs (primParams_tag (by simpa [primDomain] using hd)) hlen b hm
+  | .wrap (.str d), p, v, hd, hv, b, hm, hl => by
+    simp only [primDomain, Bool.and_eq_true, decide_eq_true_eq] at hd
+    cases hv with
+    | wrap hv' =>
+      cases hv' with
+      | str =>
+        rename_i bs
+        have hlen : bs.length + 44 < 9223372036854775808 := by
+          have hm' := hm
+          rw [marshal, marshal] at hm'
+          simp only [Res.ok.injEq] at hm'
+          have := finish_length_ge p false (stringTagOf p d) bs
+          rw [hm'] at this
+          omega
+        exact C05_wrapped_string d p bs (primParams_tag hd.1) hd.2 hlen b hm
+  | .oid, _, _, hd, _, _, _, _ => by simp [primDomain] at hd
+  | .slice _, _, _, hd, _, _, _, _ => by simp [primDomain] at hd
+  | .choice _, _, _, hd, _, _, _, _ => by simp [primDomain] at hd
+  | .struct _, _, _, hd, _, _, _, _ => by simp [primDomain] at hd
+  | .unsupported, _, _, hd, _, _, _, _ => by simp [primDomain] at hd
+  | .wrap .bool, _, _, hd, _, _, _, _ => by simp [primDomain] at hd
+  | .wrap .bits, _, _, hd, _, _, _, _ => by simp [primDomain] at hd
+  | .wrap .null, _, _, hd, _, _, _, _ => by simp [primDomain] at hd
+  | .wrap .oid, _, _, hd, _, _, _, _ => by simp [primDomain] at hd
+  | .wrap (.ptr _), _, _, hd, _, _, _, _ => by simp [primDomain] at hd
+  | .wrap (.slice _), _, _, hd, _, _, _, _ => by simp [primDomain] at hd
+  | .wrap (.wrap _), _, _, hd, _, _, _, _ => by simp [primDomain] at hd
+  | .wrap (.choice _), _, _, hd, _, _, _, _ => by simp [primDomain] at hd
+  | .wrap (.struct _), _, _, hd, _, _, _, _ => by simp [primDomain] at hd
+  | .wrap .unsupported, _, _, hd, _, _, _, _ => by simp [primDomain] at hd
+
+open Chf.Ber in
+/-- C05 on the whole domain the check judges: for every (type, parameters) the driver answers `in` for, every canonical
+    value that marshals is brought back by unmarshal -/
+theorem C05_domain (t : Ty) (p : Params) (v : Val) (hd : inDomain t p = true) (hv : Canon t v)
+    (b : Bytes) (hm : marshal t p v = .ok b) (hl : b.length < 4611686018427387904) : unmarshal t p b = .ok v := by
+  unfold inDomain at hd
+  by_cases h : (rtTy t && rtParams p) = true
+  · simp only [Bool.and_eq_true] at h
+    exact C05 t p v h.1 h.2 hv b hm hl
+  · have hp : primDomain t p = true := by
+      cases h' : (rtTy t && rtParams p) <;> simp_all
+    exact prim_domain_rt t p v hp hv b hm hl
+
+open Chf.Ber in
+/-- every schema type is in it, under the parameters the CHF uses (none, and "explicit,choice" for the record) -/
+theorem C05_domain_schema :
+    Gen.schema.all (fun e => inDomain e.2 {} && inDomain e.2 ⟨false, none, true, false, false, 0⟩) = true := by decide +kernel
+
+/-! ### histories of calls: the octets marshal returns are a value, not a view of storage shared with later calls
+
+  `marshal` / `unmarshal` of the model are functions.  The Go procedures are, as long as no call leaves anything behind in a
+  package-level variable (Model/CodecState.lean).  That no variable of cdr/asn can be changed by a call is read off the
+  source on every run (Gen/AsnGlobals.lean) and checked here by `decide`; the run-time side is the `H` operation of the
+  ber stream (results kept across later calls and other goroutines, arguments overwritten, then compared and decoded). -/
+
+open Chf.CodecState in
+/-- regenerated from the working tree: nothing outside init assigns to, takes the address of, or calls a method on a
+    package-level variable of cdr/asn (reflect.Type handles excepted), in the package or from its importers -/
+theorem C05_codec_globals_frozen : allFrozen Gen.asnGlobals = true := by decide
+
+/-- marshal, then unmarshal into a fresh variable: one call of the round trip -/
+def roundTrip (i : Ty × Params × Val) : Res Val :=
+  match marshal i.1 i.2.1 i.2.2 with
+  | .ok b => unmarshal i.1 i.2.1 b
+  | .err => .err
+  | .panic => .panic
+
+open Chf.CodecState in
+/-- C05 over histories: let `impl` be any procedure over the package-level store that respects the regenerated facts and
+    answers single calls from the initial store like the model (the correspondence run).  Then in EVERY history of calls —
+    whatever was marshalled before — every value of the domain of `C05` that marshals comes back as itself. -/
+theorem C05_history {V : Type} (impl : Store V → (Ty × Params × Val) → Res Val × Store V)
+    (hr : Respects Gen.asnGlobals impl) (g : Store V) (hcorr : ∀ i, (impl g i).1 = roundTrip i)
+    (hist : List (Ty × Params × Val)) (t : Ty) (p : Params) (v : Val)
+    (ht : rtTy t = true) (hp : rtParams p = true) (hv : Canon t v)
+    (b : Bytes) (hm : marshal t p v = .ok b) (hl : b.length < 4611686018427387904) :
+    (impl (after impl g hist) (t, p, v)).1 = .ok v := by
+  rw [history_independent C05_codec_globals_frozen hr g hist, hcorr]
+  simp only [roundTrip, hm]
+  exact C05 t p v ht hp hv b hm hl
+
+open Chf.CodecState in
+/-- … and a whole history answers item by item what the single calls answer (the Lean driver's answer to an `H` line) -/
+theorem C05_history_answers {V : Type} (impl : Store V → (Ty × Params × Val) → Res Val × Store V)
+    (hr : Respects Gen.asnGlobals impl) (g : Store V) (hcorr : ∀ i, (impl g i).1 = roundTrip i)
+    (hist : List (Ty × Params × Val)) : answers impl g hist = hist.map roundTrip := by
+  rw [answers_eq_map C05_codec_globals_frozen hr g hist]
+  exact List.map_congr_left (fun i _ => hcorr i)
 
 end Chf.Props.C05
